@@ -40,6 +40,26 @@ func stepDiff(sp *gstep.Spec, orig, got interface{}) string {
 	return rfl.Diff(rfl.Canon(orig, gpack.Hook), rfl.Canon(got, gpack.Hook), rfl.IgnorePrefixes(sp.Ignore...))
 }
 
+// copyExported overwrites every exported, settable field of *dst with the one of *src (same type); unexported
+// fields of dst - whatever the type may remember about earlier calls - stay as they are.
+func copyExported(dst, src interface{}, skip map[string]bool) int {
+	d, sv := reflect.ValueOf(dst).Elem(), reflect.ValueOf(src).Elem()
+	n := 0
+	for i := 0; i < d.NumField(); i++ {
+		f := d.Type().Field(i)
+		if f.PkgPath != "" || skip[f.Name] || !d.Field(i).CanSet() {
+			continue
+		}
+		if f.Anonymous && f.Type.Kind() == reflect.Struct {
+			n += copyExported(d.Field(i).Addr().Interface(), sv.Field(i).Addr().Interface(), skip)
+			continue
+		}
+		d.Field(i).Set(sv.Field(i))
+		n++
+	}
+	return n
+}
+
 // refStepPrefix: tag byte followed by the three decimals of the common step prefix.
 func refStepPrefix(st step.Step) []byte {
 	w := ref.NewW()
@@ -227,13 +247,24 @@ func runOne(c OneCase) *pbt.Result {
 			return pbt.Fail("%s: re-encoding the decoded step differs (%d vs %d bytes)", c.Type, len(o2.ToByteArray()), len(b))
 		}
 	}
+	// the same object, written before, takes other content through its exported fields and is written again:
+	// the bytes must be those of the content it has now
+	st2 := sp.Build(rfl.NewStream(nil, c.Seed^0x9e3779b97f4a7c15, c.Len))
+	st.Write(wio.NewDataOutputX()) // written immediately before the change: nothing else is written in between
+	copyExported(st, st2, nil)
+	oa, ob := wio.NewDataOutputX(), wio.NewDataOutputX()
+	st.Write(oa)
+	st2.Write(ob)
+	if !bytes.Equal(oa.ToByteArray(), ob.ToByteArray()) {
+		return pbt.Fail("%s: a step that had been written was given other field values and written again: its bytes differ from those of a fresh step with the same field values (%d vs %d bytes)", c.Type, len(oa.ToByteArray()), len(ob.ToByteArray()))
+	}
 	nd, tot := rfl.NonDefault(rfl.Canon(st, gpack.Hook))
 	return &pbt.Result{NT: nd*2 >= tot, Classes: []string{"type=" + c.Type}, Key: append([]byte(c.Type), b...)}
 }
 
 var specOne = pbt.Register(pbt.Spec[OneCase]{
 	Prop: "C08", Name: "step-write-read", Parallel: 8,
-	Rule:  "one step of any of the 11 step types (incl. MessageStepX with Attr nil/empty/filled and SqlStep_3 with every combination of its three section flags) through its own Write/Read: equal fields, exact consumption with foreign trailing bytes, identical re-encoding, absent optional sections left at zero; non-trivial = at least half of the fields non-default; distinct by type+bytes",
+	Rule:  "one step of any of the 11 step types (incl. MessageStepX with Attr nil/empty/filled and SqlStep_3 with every combination of its three section flags) through its own Write/Read: equal fields, exact consumption with foreign trailing bytes, identical re-encoding, absent optional sections left at zero; the written object then takes the field values of another generated step and must write the bytes a fresh step with those values writes; non-trivial = at least half of the fields non-default; distinct by type+bytes",
 	Quick: 3000, Thorough: 150000,
 	Draw: func(t *rapid.T) OneCase {
 		var names []string
@@ -300,12 +331,42 @@ func runTx(c RecCase) *pbt.Result {
 	if d := rfl.Diff(want, rfl.Canon(q2, gpack.Hook), nil); d != "" {
 		return pbt.Fail("Read differs from the original: %s", d)
 	}
-	return &pbt.Result{NT: groups >= 1, Classes: []string{fmt.Sprintf("optional-groups=%d", groups)}, Key: b}
+	// the same record object, encoded before, is changed in place and encoded again
+	cls := []string{fmt.Sprintf("optional-groups=%d", groups)}
+	s2 := rfl.NewStream(nil, c.Seed^0x9e3779b97f4a7c15, c.Len)
+	r2 := gpack.TxRecord(s2)
+	r.ToBytes() // encoded immediately before the change: nothing else is encoded in between
+	copyExported(r, r2, map[string]bool{"Fields": true})
+	if r.Fields != nil && r.Fields.Size() > 0 {
+		// values replaced under the existing keys (the number of entries stays), sometimes one more key
+		var keys []string
+		for en := r.Fields.Keys(); en.HasMoreElements(); {
+			keys = append(keys, en.NextString())
+		}
+		for i, k := range keys {
+			if i%2 == 0 || s2.Intn(2) == 0 {
+				r.Fields.PutString(k, fmt.Sprintf("changed-%d-%d", i, c.Seed%1000))
+			}
+		}
+		if s2.Intn(3) == 0 {
+			r.Fields.PutLong("added-later", int64(c.Seed%100000))
+		}
+		cls = append(cls, "fields-changed-in-place")
+	} else if r2.Fields != nil {
+		r.Fields = r2.Fields
+	}
+	b2 := append([]byte(nil), r.ToBytes()...)
+	gpack.NormalizeTxRecord(r)
+	q3 := service.NewTxRecord().ToObject(append([]byte(nil), b2...))
+	if d := rfl.Diff(rfl.Canon(r, gpack.Hook), rfl.Canon(q3, gpack.Hook), nil); d != "" {
+		return pbt.Fail("a record that had been encoded was changed in place and encoded again; ToObject of the second encoding differs from the record: %s", d)
+	}
+	return &pbt.Result{NT: groups >= 1, Classes: cls, Key: b}
 }
 
 var specTx = pbt.Register(pbt.Spec[RecCase]{
 	Prop: "C08", Name: "tx-record", Parallel: 8,
-	Rule:  "transaction records with every combination of the optional groups (multi-trace ids present iff Mtid != 0, caller identity iff McallerPcode != 0, custom fields nil/empty/filled) through ToBytes/ToObject and Write/Read with trailing bytes; optional groups restored exactly when present, absent ones zero, ErrorLevel defaulting as documented; non-trivial = at least one optional group present; distinct by bytes",
+	Rule:  "transaction records with every combination of the optional groups (multi-trace ids present iff Mtid != 0, caller identity iff McallerPcode != 0, custom fields nil/empty/filled) through ToBytes/ToObject and Write/Read with trailing bytes; optional groups restored exactly when present, absent ones zero, ErrorLevel defaulting as documented; then the same object takes other field values (custom-field values replaced under their keys) and is encoded and decoded again; non-trivial = at least one optional group present; distinct by bytes",
 	Quick: 2500, Thorough: 120000,
 	Draw: func(t *rapid.T) RecCase {
 		return RecCase{Seed: rapid.Uint64().Draw(t, "seed"), Len: rapid.SampledFrom([]int{0, 10, 90, 300, 300}).Draw(t, "len"), Prefix: rapid.SliceOfN(rapid.Uint64(), 0, 8).Draw(t, "prefix")}
